@@ -25,6 +25,7 @@ func main() {
 	flag.Var(&overlays, "overlay", "relpath=file: analyse relpath (relative to -repo) with the content of file (in-memory overlay; repeatable)")
 	mutOnly := flag.Bool("mutants", false, "run only the overlay mutants of -prop and print a table (checker self-validation)")
 	dump := flag.String("dump", "", "debug: print the SSA of functions whose name contains this string")
+	norm := flag.String("norm", "", "debug: print the helper call sites inlined before analysis; with a file suffix, also the transformed file")
 	flag.StringVar(&onlyMutant, "only", "", "with -mutants: run only mutants whose id contains this string")
 	flag.Parse()
 	if *list {
@@ -74,6 +75,23 @@ func main() {
 			fmt.Printf("VIOLATION property=%s replay=%s\n", id, "bin/verifcheck -prop "+id)
 		}
 		os.Exit(1)
+	}
+	if *norm != "" {
+		for _, s := range p.NormSites {
+			fmt.Println("inlined", s)
+		}
+		for _, s := range p.NormSkipped {
+			fmt.Println("kept   ", s)
+		}
+		for _, s := range p.NormNotes {
+			fmt.Println("note   ", s)
+		}
+		for fn, b := range p.NormOverlay {
+			if *norm != "list" && strings.HasSuffix(fn, *norm) {
+				fmt.Printf("==== %s\n%s\n", fn, b)
+			}
+		}
+		return
 	}
 	if *dump != "" {
 		for _, f := range p.ScopeFuncs() {
